@@ -175,6 +175,14 @@ Proof.
 Qed.
 Print Assumptions C13_contextual_calendar.
 
+(* independent of the generated positions: for a member of the weekday (month) set, the index in
+   the hand-written calendar of the name it abbreviates with >= 3 letters IS its table position
+   (this is what the boolean form checks on the implementation's sorted output) *)
+Theorem C13_contextual_calendar_independent : forall k s i, cal_of k = Some (s, i) ->
+  s = fst (ctx_rank k) /\ i = Z.to_nat (snd (ctx_rank k)) /\ (0 <= snd (ctx_rank k))%Z.
+Proof. exact cal_of_spec. Qed.
+Print Assumptions C13_contextual_calendar_independent.
+
 (* ByContextualEx AS PINNED (before the repairs) did not satisfy the statement: b, wed, thu sorted
    differently from different arrangements, the same question got different answers depending on
    the history, and mon / Monday were tied. Kept as the justification of the two fix commits. *)
@@ -313,6 +321,22 @@ Proof. vm_compute. repeat split. Qed.
 Theorem C13_check_sound : forall c, case_wf c = true -> in_domain c = true -> C13_check c (model c) = true.
 Proof. exact C13_check_sound_proof. Qed.
 Print Assumptions C13_check_sound.
+
+(* ---- collectors over histories (counter, subkey counter, table rows / columns, reduce groups) ---- *)
+(* The sorted view is a function of the FINAL aggregated data: two histories with the same totals
+   per key give the same sequence; in particular the order in which samples arrived and the reads
+   (rendered frames) in between do not matter. The correspondence compares the implementation's
+   final read after an interleaved history with this. *)
+Theorem C13_collect_final_data : forall md bk keys h1 h2, (forall i, total h1 i = total h2 i) ->
+  model (ICollect md bk keys h1) = model (ICollect md bk keys h2).
+Proof. exact collect_final_data. Qed.
+Theorem C13_collect_arrival_order : forall md bk keys h1 h2, Permutation h1 h2 ->
+  model (ICollect md bk keys h1) = model (ICollect md bk keys h2).
+Proof. intros. apply collect_final_data. now apply total_perm. Qed.
+Theorem C13_collect_reads_irrelevant : forall md bk keys h,
+  model (ICollect md bk keys (drop_reads h)) = model (ICollect md bk keys h).
+Proof. intros. apply collect_final_data. intros i. apply total_drop_reads. Qed.
+Print Assumptions C13_collect_arrival_order.
 
 (* non-vacuity: a mixed-case weekday set with a tie, a non-member and a month sorts as stated *)
 Definition kx (s : string) := mkkey (of_str s) None FmtErr [].
